@@ -109,6 +109,50 @@ def markup_provenance():
 FLAGS = ("context.autoescape", "context.env.autoescape", "environment.autoescape", "env.autoescape", "self.env.autoescape")
 
 
+def _flag_through_constructor(pm, call, txt):
+    """`self.<attr>` counts as the environment's flag when the enclosing class stores a constructor
+    parameter in it and EVERY construction site of the class passes the flag itself for that
+    parameter (one hop through a small helper object, e.g. the translate tag's message variables)"""
+    if not txt.startswith("self.") or txt.count(".") != 1:
+        return False
+    attr = txt.split(".")[1]
+    classes = flow.enclosing(pm, call, (ast.ClassDef,))
+    if not classes:
+        return False
+    cls = classes[0]
+    init = load._last_def(cls.body, "__init__")
+    if init is None:
+        return False
+    stores = [st for st in ast.walk(init) if isinstance(st, ast.Assign) and any(flow.dotted(t) == f"self.{attr}" for t in st.targets)]
+    params = [a.arg for a in init.args.posonlyargs + init.args.args + init.args.kwonlyargs]
+    if len(stores) != 1 or not isinstance(stores[0].value, ast.Name) or stores[0].value.id not in params:
+        return False
+    if any(isinstance(st, (ast.Assign, ast.AugAssign)) and any(flow.dotted(t) == f"self.{attr}" for t in (st.targets if isinstance(st, ast.Assign) else [st.target])) for f_ in cls.body if isinstance(f_, (ast.FunctionDef, ast.AsyncFunctionDef)) and f_.name != "__init__" for st in ast.walk(f_)):
+        return False
+    param = stores[0].value.id
+    pos = (init.args.posonlyargs + init.args.args)
+    index = [a.arg for a in pos].index(param) - 1 if param in [a.arg for a in pos] else None
+    sites = 0
+    for m2 in load.all_modules():
+        mod2 = load.get_module(m2)
+        pm2 = None
+        for c2 in flow.calls(mod2.tree):
+            if flow.dotted(c2.func) != cls.name:
+                continue
+            sites += 1
+            arg = flow.kwarg(c2, param)
+            if arg is None and index is not None and len(c2.args) > index:
+                arg = c2.args[index]
+            if arg is None:
+                return False
+            pm2 = pm2 or flow.parents(mod2.tree)
+            fns2 = flow.enclosing(pm2, c2, (ast.FunctionDef, ast.AsyncFunctionDef))
+            local2 = {t.id for st in ast.walk(fns2[0]) if isinstance(st, ast.Assign) and flow.dotted(st.value) in FLAGS for t in st.targets if isinstance(t, ast.Name)} if fns2 else set()
+            if flow.dotted(arg) not in FLAGS and flow.dotted(arg) not in local2:
+                return False
+    return sites >= 1
+
+
 @structural("C05", "autoescape-flag-propagation")
 def flag_propagation():
     """every stringification for output receives the environment's autoescape flag itself;
@@ -132,7 +176,7 @@ def flag_propagation():
             local = set()
             if fn is not None:
                 local = {t.id for st in ast.walk(fn) if isinstance(st, ast.Assign) and flow.dotted(st.value) in FLAGS for t in st.targets if isinstance(t, ast.Name)}
-            plain = txt in FLAGS or txt in local
+            plain = txt in FLAGS or txt in local or _flag_through_constructor(pm, call, txt)
             message_arg = m == "liquid.extra.filters.translate" and fn is not None and fn.name == "__call__" and any(txt == f"{l} and self.autoescape_message" for l in local | set(FLAGS))
             obs.append(flow.ob(f"{m.split('.', 1)[-1]}:{fn.name if fn else '?'}@{call.lineno}:stringified-with-the-environments-autoescape-flag", plain or message_arg, f"autoescape={txt}", replay_schema="code", replay_extra={"code": REPLAY_FLAG}))
     obs.append(flow.ob("stringification-sites-found", n >= 5, f"{n} to_liquid_string call sites"))
